@@ -12,13 +12,15 @@ Sym1 == -1..1
 Sym2 == -2..2
 Sym3 == -3..3
 Asym3 == -1..2
+(* sample values whose ranges differ by one count at 2^24 .. 2^25: ranges that are different numbers but agree in their first seven digits *)
+Near == {0, 3, 16777216, 16777217, 33554433}
 VARIABLES fed, o3, o4, oF, def4
 vars == <<fed, o3, o4, oF, def4>>
 
 (* the signal grows sample by sample so that TLC's workers share the enumeration; every state is one signal *)
 Alternates(f, v) == IF Len(f) = 0 THEN TRUE
                     ELSE IF Len(f) = 1 THEN v # f[1]
-                    ELSE (f[Len(f)] - f[Len(f) - 1]) * (v - f[Len(f)]) < 0
+                    ELSE Sgn(f[Len(f)] - f[Len(f) - 1]) * Sgn(v - f[Len(f)]) < 0
 Init == fed = <<>> /\ o3 = D0 /\ o4 = D0 /\ oF = F0 /\ def4 = [res |-> <<>>, cyc |-> <<>>]
 Next == /\ Len(fed) < MaxLen
         /\ \E v \in Vals :
